@@ -33,12 +33,19 @@ type fakeNet struct {
 	mu        sync.Mutex
 	connected map[peer.ID]bool
 	notifiees []network.Notifiee
+	onQuery   func() // one-shot: runs right after the next Connectedness query has read the state
 }
 
 func (n *fakeNet) Connectedness(p peer.ID) network.Connectedness {
 	n.mu.Lock()
-	defer n.mu.Unlock()
-	if n.connected[p] {
+	c := n.connected[p]
+	hook := n.onQuery
+	n.onQuery = nil
+	n.mu.Unlock()
+	if hook != nil {
+		hook()
+	}
+	if c {
 		return network.Connected
 	}
 	return network.NotConnected
@@ -98,7 +105,7 @@ type fakeHost struct {
 func newFakeHost() *fakeHost {
 	return &fakeHost{net: &fakeNet{connected: map[peer.ID]bool{}}, parked: make(chan dialReq)}
 }
-func (h *fakeHost) Network() network.Network        { return h.net }
+func (h *fakeHost) Network() network.Network         { return h.net }
 func (h *fakeHost) ConnManager() connmgr.ConnManager { return connmgr.NullConnMgr{} }
 func (h *fakeHost) Connect(ctx context.Context, pi peer.AddrInfo) error {
 	ok := 0
@@ -207,6 +214,47 @@ func (r *runner) do(kind string) bool {
 		r.pstop--
 		r.h.StopIfConnected()
 		r.emit("ERunStop", true, "runstop")
+	case "runstopflap":
+		// the deferred stopIfConnected call runs while the peer is connected; right after it has read the
+		// connection state the connection drops and the Disconnected notification's startIfDisconnected is
+		// attempted concurrently (it can only run once stopIfConnected has released the handler's lock)
+		if r.pstop == 0 || !r.connected || !r.registered || r.inDial != nil {
+			return false
+		}
+		r.pstop--
+		flapDone := make(chan struct{})
+		r.host.net.mu.Lock()
+		r.host.net.onQuery = func() {
+			go func() {
+				r.host.net.set(r.p, false)
+				r.h.StartIfDisconnected()
+				close(flapDone)
+			}()
+			select {
+			case <-flapDone:
+			case <-time.After(10 * time.Millisecond):
+			}
+		}
+		r.host.net.mu.Unlock()
+		r.h.StopIfConnected()
+		r.host.net.mu.Lock()
+		unused := r.host.net.onQuery != nil
+		r.host.net.onQuery = nil
+		r.host.net.mu.Unlock()
+		if unused {
+			// no timer: stopIfConnected did not look at the connection state, nothing flapped
+			r.emit("ERunStop", true, "runstop")
+			return true
+		}
+		select {
+		case <-flapDone:
+		case <-time.After(30 * time.Second):
+			r.t.Fatalf("startIfDisconnected did not return")
+		}
+		r.connected = false
+		r.emit("ERunStop", false, "runstop (peer drops right after the state was read)")
+		r.emit("EDisc", false, "disc")
+		r.emit(fmt.Sprintf("(ERunStart %d)", int64(r.h.NextDelay())), true, "runstart")
 	case "fire":
 		if r.inDial != nil {
 			return false
@@ -272,7 +320,7 @@ func (r *runner) finish() {
 	r.h.Stop()
 }
 
-var kinds = []string{"conn", "disc", "runstart", "runstart", "runstop", "fire", "fire", "dialok", "dialfail", "dialfail", "dialdrop", "stop"}
+var kinds = []string{"conn", "disc", "runstart", "runstart", "runstop", "runstopflap", "fire", "fire", "dialok", "dialfail", "dialfail", "dialdrop", "stop"}
 
 func TestC46(t *testing.T) {
 	e := vh.Load(t)
@@ -294,11 +342,13 @@ func TestC46(t *testing.T) {
 	}
 
 	corpus := [][]string{
-		{"stop", "runstart"},                                                                // C46-1: deferred start after stop
-		{"runstart", "fire", "stop", "dialfail"},                                            // stop during a dial
-		{"runstart", "fire", "dialok", "disc", "runstart"},                                  // reconnect, drop, re-arm
-		{"runstart", "fire", "dialdrop", "runstart", "runstop"},                             // C46-2: Connect succeeds, peer drops before the tail
+		{"stop", "runstart"},                                                                         // C46-1: deferred start after stop
+		{"runstart", "fire", "stop", "dialfail"},                                                     // stop during a dial
+		{"runstart", "fire", "dialok", "disc", "runstart"},                                           // reconnect, drop, re-arm
+		{"runstart", "fire", "dialdrop", "runstart", "runstop"},                                      // C46-2: Connect succeeds, peer drops before the tail
 		{"runstart", "fire", "dialfail", "fire", "dialfail", "fire", "dialfail", "fire", "dialfail"}, // growing backoff
+		{"runstart", "conn", "runstopflap"},                                                          // connect-then-drop flap inside stopIfConnected
+		{"runstart", "fire", "dialok", "runstart", "runstopflap", "fire", "dialfail"},
 		{"conn", "runstart", "runstop", "disc", "runstart", "stop", "conn", "disc", "runstart", "runstop"},
 		// 18 consecutive failed dials: the backoff reaches the 10-minute cap and its jitter band
 		{"runstart", "fire", "dialfail", "fire", "dialfail", "fire", "dialfail", "fire", "dialfail", "fire", "dialfail", "fire", "dialfail",
